@@ -80,6 +80,17 @@ Theorem C13_fair_schedule_completes : forall s,
 Proof. exact rounds_quiesce. Qed.
 Print Assumptions C13_fair_schedule_completes.
 
+(* Hence: ANY schedule prefix, continued fairly, ends with every rank of every fault-free snapshot Done and its
+   metadata written, and every rank of every faulty snapshot Raised with nothing committed. *)
+Theorem C13_fair_completion_outcomes : forall st0 h sch i x,
+  fresh st0 h -> distinct_prefixes h ->
+  let s := grun (ginit st0 h) sch in
+  nth_error (g_insts (grun s (rounds s (S (gmeasure s))))) i = Some x ->
+  (no_fault x -> (forall r, (r < i_W x)%nat -> i_pcs x r = PDone) /\ ((0 < i_W x)%nat -> i_meta x = true)) /\
+  (has_fault x -> (forall r, (r < i_W x)%nat -> i_pcs x r = PRaised) /\ i_meta x = false).
+Proof. exact fair_completion_outcomes. Qed.
+Print Assumptions C13_fair_completion_outcomes.
+
 (* Steps of other snapshots never change a key under snapshot i's prefix nor snapshot i's local state: a
    schedule consisting only of steps of instances other than i leaves both untouched.  (The theorems above are
    proved for whole histories directly; this is the reason they go through.) *)
